@@ -21,7 +21,7 @@ class CExec:
         return dict(seed=self.seed, threads=self.threads, ops=self.ops, mode=self.mode)
 
 
-def run_conc(exe, ex, extra_env=None, timeout=120):
+def run_conc(exe, ex, extra_env=None, timeout=600):   # the driver has its own watchdog (exit 3 when no call completes for 20 s); this is only a backstop
     d = c.scratch('conc'); ex.dir = d
     ex.trace = os.path.join(d, 'trace.ndjson')
     env = {'LCDB_VERIF_LINEBUF': '1'}
